@@ -194,6 +194,20 @@ def depth_of(s):
     return s.count("{") - s.count("}")
 
 
+def macros_of(head):
+    """function-like macros of the prologue: name -> (parameter, body)"""
+    out = {}
+    for m in re.finditer(r"^#define\s+(\w+)\((\w+)\)((?:.*\\\n)*.*)$", head, re.M):
+        out[m.group(1)] = (m.group(2), m.group(3).replace("\\\n", "\n"))
+    return out
+
+
+def expand(act, macros):
+    for name, (par, body) in macros.items():
+        act = re.sub(r"\b%s\(([^()]*)\)" % name, lambda m: re.sub(r"\b%s\b" % par, lambda _: m.group(1), body), act)
+    return act
+
+
 def classify(act):
     a = re.sub(r"/\*.*?\*/", " ", act, flags=re.S)
     a = re.sub(r"//[^\n]*", " ", a)
@@ -201,6 +215,8 @@ def classify(act):
     begin = re.findall(r"BEGIN\((\w+)\)", a)
     if "find_keyword" in a:
         return {"k": "word"}
+    if "is_type" in a and "T_TYPENAME" in rets and len(rets) == 2:
+        return {"k": "letter", "tok": [r for r in rets if r != "T_TYPENAME"][0], "unless_property": "syntax_t::PROPERTY" in a}          # a letter token that is a type name when the builder says so
     if "T_POS_NEG_MAX" in a or "atoi" in a:
         return {"k": "nat"}
     if "atof" in a:
@@ -231,11 +247,12 @@ def classify(act):
     raise SystemExit("lexer_rules: cannot classify the action %r" % act[:200])
 
 
-def main():
-    src, out = sys.argv[1:3]
+def rule_lines(src):
+    """-> (conds, defs, [(cond, pattern, action text with the prologue's macros expanded)])"""
     text = open(src).read()
     head, body = text.split("\n%%\n", 1)
     body = body.split("\n%%", 1)[0]
+    macros = macros_of(head)
     defs, conds = {}, ["INITIAL"]
     in_code = False
     for ln in head.split("\n"):
@@ -274,7 +291,13 @@ def main():
                 act += "\n" + lines[i]
                 depth += depth_of(lines[i])
                 i += 1
-        rules.append((cond, pat, act))
+        rules.append((cond, pat, expand(act, macros)))
+    return conds, defs, rules
+
+
+def main():
+    src, out = sys.argv[1:3]
+    conds, defs, rules = rule_lines(src)
     res = {"conds": {}, "rules": [], "eof": {}}
     per = {c: [] for c in conds}
     for cnd, pat, act in rules:
@@ -345,4 +368,5 @@ def main():
     print("lexer_rules: %d rules, %s" % (len(res["rules"]), {c: len(res["conds"][c]["states"]) for c in conds}))
 
 
-main()
+if __name__ == "__main__":
+    main()
